@@ -82,6 +82,12 @@ EXTRA = {
    '//@ ensures [C07] shortOr: runInfo.err == nil && operator.Operator == "||" && ncalls() == 1 ==> runInfo.rv == trueValue',
    '//@ ensures [C07] shortAnd: runInfo.err == nil && operator.Operator == "&&" && ncalls() == 1 ==> runInfo.rv == falseValue',
    '//@ ensures [C07] boolean: runInfo.err == nil ==> runInfo.rv == trueValue || runInfo.rv == falseValue',
+   '// the right operand is evaluated exactly when the (truthiness of the) left one does not decide the result - whatever its type',
+   '//@ ensures [C07] skipsOr: operator.Operator == "||" && ncalls() >= 1 && res(0) == nil && truthyV(unwrap(res2(0))) ==> ncalls() == 1',
+   '//@ ensures [C07] skipsAnd: operator.Operator == "&&" && ncalls() >= 1 && res(0) == nil && !truthyV(unwrap(res2(0))) ==> ncalls() == 1',
+   '//@ ensures [C07] needsOr: operator.Operator == "||" && ncalls() >= 1 && res(0) == nil && !truthyV(unwrap(res2(0))) ==> ncalls() == 2',
+   '//@ ensures [C07] needsAnd: operator.Operator == "&&" && ncalls() >= 1 && res(0) == nil && truthyV(unwrap(res2(0))) ==> ncalls() == 2',
+   '//@ ensures [C07 C08] value: runInfo.err == nil && ncalls() == 2 ==> (runInfo.rv == trueValue) == truthyV(unwrap(res2(1)))',
  ],
  "invokeUnaryExpr": [
    '//@ ensures [C07] once: ncalls() == 1 && arg(0) == expr.Expr',
@@ -98,6 +104,11 @@ EXTRA = {
    '//@ ensures [C07] left: ncalls() >= 1 && ncalls() <= 2 && calleeIs(0, "invokeExpr") && arg(0) == expr.LHS',
    '//@ ensures [C07] right: ncalls() == 2 ==> calleeIs(1, "invokeExpr") && arg(1) == expr.RHS && (res(0) != nil || nilV(res2(0)))',
    '//@ ensures [C07] skip: ncalls() == 1 && !fired ==> res(0) == nil && !nilV(res2(0))'],
+ "invokeMemberExpr": ['// C11: member syntax on a Go struct value (directly, behind an interface, or through a pointer) that has no method of that',
+   '// name reads the exported field of that name - promoted fields of embedded structs included: the value at the index path',
+   '// reflect.Type.FieldByName reports',
+   '//@ ensures [C11] field: ncalls() == 1 && res(0) == nil && !typeis(rvIface(unwrap(res2(0))), "*env.Env") && !rvValid(rvMethodNamed(unwrap(res2(0)), expr.Name)) && rvKind(memberRecv(res2(0))) == reflect.Struct && typeHasField(rvTypeOf(memberRecv(res2(0))), expr.Name) ==> runInfo.err == nil && runInfo.rv == rvFieldPath(memberRecv(res2(0)), typeFieldIndex(rvTypeOf(memberRecv(res2(0))), expr.Name))',
+   '//@ ensures [C11] method: ncalls() == 1 && res(0) == nil && !typeis(rvIface(unwrap(res2(0))), "*env.Env") && rvValid(rvMethodNamed(unwrap(res2(0)), expr.Name)) ==> runInfo.err == nil && runInfo.rv == rvMethodNamed(unwrap(res2(0)), expr.Name)'],
  "invokeItemExpr": [
    '//@ ensures [C07] order: ncalls() >= 1 && ncalls() <= 2 && calleeIs(0, "invokeExpr") && arg(0) == expr.Item && (ncalls() == 2 ==> res(0) == nil && calleeIs(1, "invokeExpr") && arg(1) == expr.Index) && (runInfo.err == nil ==> ncalls() == 2)'],
  "invokeLenExpr": ['//@ ensures [C07] once: ncalls() == 1 && arg(0) == expr.Expr'],
@@ -163,7 +174,10 @@ EXTRA = {
    '//@ ensures [C10] nilmap: rvIsNil(aMap) ==> result == nilValue && ncalls() == 0',
    '//@ ensures [C10] badkey: ncalls() == 1 && calleeIs(0, "convertReflectValueToType") && (res(0) != nil || !hashableKey(res2(0))) ==> result == nilValue',
    '//@ ensures [C10] lookup: ncalls() == 2 ==> calleeIs(0, "convertReflectValueToType") && arg(0) == key && res(0) == nil && res3(0) == typeKey(rvTypeOf(aMap)) && calleeIs(1, "(reflect.Value).MapIndex") && arg(1) == aMap && res2(1) == res2(0) && (!rvValid(res(1)) ==> result == nilValue) && (rvValid(res(1)) && typeElem(rvTypeOf(aMap)) != interfaceType ==> result == res(1))'],
- "appendSlice": ['//@ ensures [C01] okv: rvValid(result.0)'],
+ "appendSlice": ['//@ ensures [C01] okv: rvValid(result.0)',
+   '// C10: `a + b` / `a += b` on two slices with the same element type IS Go\'s append(a, b...) (reflect.AppendSlice on exactly',
+   '// these two operands - so its storage-sharing and growth behaviour is Go\'s, never a shortcut)',
+   '//@ ensures [C10] goappend: typeElem(rvTypeOf(lhsV)) == typeElem(rvTypeOf(rhsV)) ==> result.1 == nil && result.0 == rvAppendSlice(lhsV, rhsV)'],
  "makeValue": ['//@ requires [C01] t != nil', '//@ ensures [C01] okv: rvValid(result.0)'],
  "equal": ['//@ free_ensures rel: result == equalR(lhsV, rhsV)', '//@ ensures [C06] nil: (nilV(lhsV) || nilV(rhsV)) ==> result == (nilV(lhsV) && nilV(rhsV))',
            '//@ ensures [C06] core: !nilV(lhsV) && !nilV(rhsV) && corePair(eqD(lhsV), eqD(rhsV)) ==> result == eqV(lhsV, rhsV)'],
@@ -232,6 +246,9 @@ out.append('''//@ func (*Error).Error
 //@ requires node: callExpr != nil
 // C16: `go f(args)` evaluates every argument, in the calling goroutine, before the new goroutine is started
 //@ spawnsite [C16 C07] argsfirst: ncalls() == len(callExpr.SubExprs) && evalsPrefix(callExpr.SubExprs) && (forall k int :: 0 <= k && k < ncalls() ==> res(k) == nil)
+// ... and hands exactly those values, in order, with the caller's context, to the goroutine
+//@ spawnsite [C16 C11] argspassed: goarg0 == runInfo.ctx && (ngoargs >= 2 ==> goarg1 == res2(0)) && (ngoargs >= 3 ==> goarg2 == res2(1)) && (ngoargs >= 4 ==> goarg3 == res2(2)) && (ngoargs >= 5 ==> goarg4 == res2(3))
+//@ loop 0 invariant argvals: len(args) == ncalls() && (forall k int :: 0 <= k && k < len(args) ==> args[k] == res2(k))
 //@ ensures [C07 C08 C02] nothandled: !handled ==> runInfo.err == old(runInfo.err) && runInfo.rv == old(runInfo.rv) && polls == old(polls) && fired == old(fired) && ncalls() == 0
 //@ ensures [C07] order: evalsPrefix(callExpr.SubExprs) && okButLast()
 //@ loop 0 invariant fresh(base(args)) && ncalls() == rangeindex + 1 && rangeindex < len(callExpr.SubExprs) && evalsPrefix(callExpr.SubExprs) && (forall k int :: 0 <= k && k < ncalls() ==> res(k) == nil)
